@@ -1,5 +1,6 @@
 /-
-  Impl model of ec-core's selectors (packages/ec-core/src/operator/selector/*.rs).
+  Impl model of ec-core's selectors (packages/ec-core/src/operator/selector/*.rs) and of the
+  weighted selector combinators (packages/ec-core/src/weighted/*.rs).
   A population is a list of individuals; a selector returns the *index* of the selected
   individual (the abstraction of the `&'pop Individual` the Rust returns).
 -/
@@ -18,6 +19,10 @@ deriving Repr, DecidableEq, Inhabited
 def Ind.cmp (higherBetter : Bool) (a b : Ind) : Ordering :=
   if higherBetter then compare a.key b.key else compare b.key a.key
 
+/-- `Ord` on one test-case result: `Score<T>` derives `Ord` (ascending), `Error<T>` reverses it. -/
+def resCmp (higherBetter : Bool) (x y : Int) : Ordering :=
+  if higherBetter then compare x y else compare y x
+
 /-- `Iterator::max_by`: `reduce(|x, y| if cmp(x, y) == Greater { x } else { y })` — the **last** maximum. -/
 def iterMax {α : Type} (cmp : α → α → Ordering) : List α → Option α
   | [] => none
@@ -28,20 +33,127 @@ def iterMin {α : Type} (cmp : α → α → Ordering) : List α → Option α
   | [] => none
   | x :: xs => some (xs.foldl (fun acc y => if cmp acc y == .gt then y else acc) x)
 
+/-- Errors, with the nesting the Rust error types have. -/
 inductive SelErr where
+  /-- `EmptyPopulation` (best, worst, random, probes) -/
   | emptyPopulation
+  /-- `TournamentSizeError { tournament_size, population_size }` -/
   | tournamentSize (k n : Nat)
+  /-- `LexicaseError::EmptyPopulation(EmptyPopulation)` -/
+  | lexEmpty
+  /-- `LexicaseError::MissingTestCase { total_cases, current_index }` -/
+  | missingTestCase (total idx : Nat)
+  /-- `SelectionError::ZeroWeight(ZeroWeight)` (`Weighted` of weight 0, `WeightedPair` of total 0) -/
+  | zeroWeight
+  /-- `SelectionError::Selector(e)` -/
+  | selector (e : SelErr)
+  /-- `WeightedPairError::A(e)` / `WeightedPairError::B(e)` -/
+  | a (e : SelErr)
+  | b (e : SelErr)
+  /-- `DynWeightedError::ZeroWeightSum(WeightError::InsufficientNonZero)` (`overflow = false`) resp.
+      `DynWeightedError::ZeroWeightSum(WeightError::Overflow)` (the `usize` total overflowed) -/
+  | dynWeight (overflow : Bool)
+  /-- `DynWeightedError::Other(Box<dyn Error>)` holding `e` -/
+  | dynOther (e : SelErr)
+  /-- `Box<dyn Error + Send + Sync>` holding `e` (type-erased selectors) -/
+  | boxed (e : SelErr)
 deriving Repr, DecidableEq
 
+/-- Selector terms. `weighted`/`pair` are the statically typed combinators of `ec_core::weighted`,
+    `dyn` is `DynWeighted`, `byRef` is `&S` (also `Select::new(&s)` applied as an operator),
+    `erased` a pointer to `dyn DynSelector<P>`; `probe i` is a caller-supplied deterministic
+    selector returning the individual at position `i` (`EmptyPopulation` if there is none), the
+    generalisation of the `First` selector of the crate's documentation. -/
 inductive Sel where
   | best | worst | random
   | tournament (k : Nat)      -- `NonZeroUsize`: k ≥ 1
+  | lexicase (n : Nat)
+  | probe (i : Nat)
+  | weighted (s : Sel) (w : Nat)     -- `Weighted::new(s, w)`, `w : u32`
+  | pair (a b : Sel)                  -- `WeightedPair::new(a, b)` that was built successfully
+  | dyn (l : List (Sel × Nat))       -- `DynWeighted::new(..).with_selector(..)…`, weights `usize`
+  | byRef (s : Sel)
+  | erased (s : Sel)
 deriving Repr
 
 /-- compare two positions of the population by the individuals there -/
 def cmpAt (hb : Bool) (pop : List Ind) (i j : Nat) : Ordering :=
   Ind.cmp hb (pop.getD i default) (pop.getD j default)
 
+/-! ### Lexicase (selector/lexicase.rs) -/
+
+/-- `c.test_results().results.get(test_case_index)` for the individual at position `i` -/
+def resultAt (pop : List Ind) (i c : Nat) : Option Int := (pop.getD i default).results[c]?
+
+/-- The inner `for c in remaining` loop: state = (`winners`, `current_best_result`). -/
+def lexScan (hb : Bool) (pop : List Ind) (total c : Nat) :
+    List Nat → List Nat × Int → Except SelErr (List Nat × Int)
+  | [], st => .ok st
+  | j :: rest, (winners, best) =>
+    match resultAt pop j c with
+    | none => .error (.missingTestCase total c)
+    | some r =>
+      match resCmp hb r best with
+      | .lt => lexScan hb pop total c rest (winners, best)
+      | .eq => lexScan hb pop total c rest (winners ++ [j], best)
+      | .gt => lexScan hb pop total c rest ([j], r)
+
+/-- The `for test_case_index in case_indices` loop over the candidate vector. -/
+def lexLoop (hb : Bool) (pop : List Ind) (total : Nat) : List Nat → List Nat → Except SelErr (List Nat)
+  | [], cands => .ok cands
+  | c :: cs, cands =>
+    match cands with
+    | [] => .error .lexEmpty                       -- `split_first().ok_or(EmptyPopulation)?`
+    | [x] => .ok [x]                               -- `remaining.is_empty()` → `break`
+    | first :: remaining =>
+      match resultAt pop first c with
+      | none => .error (.missingTestCase total c)
+      | some r0 =>
+        match lexScan hb pop total c remaining ([first], r0) with
+        | .error e => .error e
+        | .ok (winners, _) => lexLoop hb pop total cs winners   -- `mem::swap(candidates, winners)`
+
+/-! ### Weighted combinators (weighted/*.rs) -/
+
+def u32Max : Nat := 4294967295
+
+/-- `WithWeight::weight`: `Weighted.weight`, `WeightedPair.weight_sum` (other selectors have none). -/
+def Sel.weight : Sel → Nat
+  | .weighted _ w => w
+  | .pair a b => a.weight + b.weight
+  | _ => 0
+
+mutual
+/-- Building the value: every `WeightedPair::new(a, b)` does `a.weight().checked_add(b.weight())`;
+    operands are built first, left before right (this is also what the `Result` impl of
+    `WithWeightedItem` does for chains: `self?.with_weighted_item(..)`).  The first failing
+    addition is reported as `WeightSumOverflow(a, b)`. -/
+def Sel.build : Sel → Except (Nat × Nat) Unit
+  | .weighted s _ => s.build
+  | .pair a b =>
+    match a.build with
+    | .error e => .error e
+    | .ok _ =>
+      match b.build with
+      | .error e => .error e
+      | .ok _ => if a.weight + b.weight > u32Max then .error (a.weight, b.weight) else .ok ()
+  | .dyn l => Sel.buildList l
+  | .byRef s => s.build
+  | .erased s => s.build
+  | _ => .ok ()
+def Sel.buildList : List (Sel × Nat) → Except (Nat × Nat) Unit
+  | [] => .ok ()
+  | (s, _) :: r =>
+    match s.build with
+    | .error e => .error e
+    | .ok _ => Sel.buildList r
+end
+
+def mapErr (f : SelErr → SelErr) : Except SelErr Nat → Except SelErr Nat
+  | .ok i => .ok i
+  | .error e => .error (f e)
+
+mutual
 def Sel.select (hb : Bool) (pop : List Ind) : Sel → Rand (Except SelErr Nat)
   | .best =>
     -- `population.into_iter().max().ok_or(EmptyPopulation)`; no randomness
@@ -52,19 +164,89 @@ def Sel.select (hb : Bool) (pop : List Ind) : Sel → Rand (Except SelErr Nat)
     match iterMin (cmpAt hb pop) (List.range pop.length) with
     | some i => pure (.ok i)
     | none => pure (.error .emptyPopulation)
-  | .random => do
+  | .random =>
     -- `population.as_ref().choose(rng).ok_or(EmptyPopulation)`
-    match ← Rand.req (.choose pop.length) with
-    | .nat i => pure (.ok i)
-    | _ => pure (.error .emptyPopulation)
-  | .tournament k => do
+    .ask (.choose pop.length) fun
+      | .nat i => pure (.ok i)
+      | _ => pure (.error .emptyPopulation)
+  | .tournament k =>
     -- size check first, then `choose_multiple(rng, k).max()`
     if pop.length < k then pure (.error (.tournamentSize k pop.length)) else
-    match ← Rand.req (.chooseMultiple pop.length k) with
-    | .idxs l =>
-      match iterMax (cmpAt hb pop) l with
-      | some i => pure (.ok i)
-      | none => pure (.error .emptyPopulation)   -- `unreachable!` in the Rust (k ≥ 1)
-    | _ => pure (.error .emptyPopulation)
+    .ask (.chooseMultiple pop.length k) fun
+      | .idxs l =>
+        match iterMax (cmpAt hb pop) l with
+        | some i => pure (.ok i)
+        | none => pure (.error .emptyPopulation)   -- `unreachable!` in the Rust (k ≥ 1)
+      | _ => pure (.error .emptyPopulation)
+  | .lexicase n =>
+    -- `case_indices.shuffle(rng)`, the filtering loop, `candidates.shuffle(rng)`, `.first()`
+    .ask (.shuffle n) fun
+      | .idxs order =>
+        match lexLoop hb pop n order (List.range pop.length) with
+        | .error e => pure (.error e)
+        | .ok cands =>
+          .ask (.shuffle cands.length) fun
+            | .idxs p =>
+              match p.head? with
+              | some j =>
+                match cands[j]? with
+                | some i => pure (.ok i)
+                | none => pure (.error .lexEmpty)     -- not reachable with a valid shuffle answer
+              | none => pure (.error .lexEmpty)       -- `candidates.first()` of an empty vector
+            | _ => pure (.error .lexEmpty)
+      | _ => pure (.error .lexEmpty)
+  | .probe i => if i < pop.length then pure (.ok i) else pure (.error .emptyPopulation)
+  | .weighted s w =>
+    -- `if self.weight == 0 { return Err(ZeroWeight.into()) }`, then the item
+    if w = 0 then pure (.error .zeroWeight)
+    else Rand.bind (s.select hb pop) fun r => pure (mapErr .selector r)
+  | .pair a b =>
+    -- `distr = Bernoulli::from_ratio(a_weight, weight_sum).ok()` is `None` iff the sum is 0
+    if a.weight + b.weight = 0 then pure (.error .zeroWeight) else
+    .ask (.ratio a.weight (a.weight + b.weight)) fun
+      | .bool true => Rand.bind (a.select hb pop) fun r => pure (mapErr (fun e => .selector (.a e)) r)
+      | .bool false => Rand.bind (b.select hb pop) fun r => pure (mapErr (fun e => .selector (.b e)) r)
+      | _ => pure (.error .zeroWeight)
+  | .dyn l =>
+    -- `self.selectors.choose_weighted(rng, |(_, w)| *w)?` then the chosen boxed selector
+    .ask (.chooseWeighted (l.map (·.2))) fun
+      | .nat i => Sel.selectNth hb pop l i
+      | _ => pure (.error (.dynWeight (decide (2 ^ 64 ≤ (l.map (·.2)).sum))))
+  | .byRef s => s.select hb pop
+  | .erased s => Rand.bind (s.select hb pop) fun r => pure (mapErr .boxed r)
+/-- the `i`-th selector of a `DynWeighted`, its error boxed into `DynWeightedError::Other` -/
+def Sel.selectNth (hb : Bool) (pop : List Ind) : List (Sel × Nat) → Nat → Rand (Except SelErr Nat)
+  | [], _ => pure (.error (.dynWeight false))     -- not reachable with a valid answer
+  | (s, _) :: _, 0 => Rand.bind (s.select hb pop) fun r => pure (mapErr .dynOther r)
+  | _ :: r, i + 1 => Sel.selectNth hb pop r i
+end
+
+/-! ### Specification-level notions used by the property theorems and the harness oracles -/
+
+/-- position `i` is at least as good as position `j` under the individuals' ordering -/
+def geAt (hb : Bool) (pop : List Ind) (i j : Nat) : Bool := cmpAt hb pop j i != .gt
+
+/-- Spec of one lexicase step: keep the candidates whose result on case `c` is best among the
+    candidates (`none` results never occur under the spec's precondition). -/
+def filterBest (hb : Bool) (pop : List Ind) (c : Nat) (cands : List Nat) : List Nat :=
+  cands.filter fun i => cands.all fun j =>
+    match resultAt pop i c, resultAt pop j c with
+    | some ri, some rj => resCmp hb rj ri != .gt
+    | _, _ => true
+
+/-- Spec of lexicase filtering: the cases in the given order, no early exit. -/
+def survivors (hb : Bool) (pop : List Ind) (order : List Nat) (cands : List Nat) : List Nat :=
+  order.foldl (fun cs c => filterBest hb pop c cs) cands
+
+/-- `j` Pareto-dominates `i` on the cases `0..n`: at least as good everywhere, better somewhere. -/
+def dominates (hb : Bool) (pop : List Ind) (n : Nat) (j i : Nat) : Bool :=
+  (List.range n).all (fun c =>
+    match resultAt pop j c, resultAt pop i c with
+    | some rj, some ri => resCmp hb rj ri != .lt
+    | _, _ => false) &&
+  (List.range n).any (fun c =>
+    match resultAt pop j c, resultAt pop i c with
+    | some rj, some ri => resCmp hb rj ri == .gt
+    | _, _ => false)
 
 end Uec
